@@ -254,6 +254,18 @@ func c11Servers() []c11Server {
 			return &caldav.Handler{Backend: &harness.CalBackend{Principal: "/u/", HomeSet: "/u/c/", Calendars: cals[1:], Objects: []caldav.CalendarObject{{Path: "/u/c/k2/only.ics", Data: harness.SampleCalendar("9", "only")}}}}
 		}, Resources: single, Universe: calUniverse})
 	}
+	{
+		// the bare object listed BEFORE the rich one (values carried over from the previous listed member
+		// would show in either order)
+		bf := append([]resExpect(nil), cres[:5]...)
+		bare := resExpect{Path: "/u/c/k1/a0.ics", Parent: "/u/c/k1/", Has: map[qname]valueCheck{
+			dav("current-user-principal"): cup, dav("getcontenttype"): textIs("text/calendar"), {nsCal, "calendar-data"}: textHas("SUMMARY:zero", "SUMMARY:one"), dav("resourcetype"): typesAre()}}
+		bf = append(bf, bare, cres[5])
+		out = append(out, c11Server{Name: "caldav-bare-first", Handler: func() http.Handler {
+			return &caldav.Handler{Backend: &harness.CalBackend{Principal: "/u/", HomeSet: "/u/c/", Calendars: cals,
+				Objects: []caldav.CalendarObject{{Path: "/u/c/k1/a0.ics", Data: harness.SampleCalendar("0", "zero")}, cobjs[0]}}}
+		}, Resources: bf, Universe: calUniverse})
+	}
 	out = append(out, c11Server{Name: "caldav", Handler: func() http.Handler {
 		return &caldav.Handler{Backend: &harness.CalBackend{Principal: "/u/", HomeSet: "/u/c/", Calendars: cals, Objects: cobjs}}
 	}, Resources: cres, Universe: []qname{dav("resourcetype"), dav("current-user-principal"), {nsCal, "calendar-home-set"}, dav("displayname"), {nsCal, "max-resource-size"}, dav("getetag"), dav("unknown-prop-x"), {"urn:foreign", "color"}, {"urn:foreign", "getetag"}}})
